@@ -56,6 +56,9 @@ def run(chk, repo: Repo):
     if len(samplers) < 20:
         raise AnchorError(f"{len(samplers)} _sample definitions found, 20 confirmed by hand")
     _r1(chk, repo, samplers)
+    # ... and nothing in the layers a draw passes through re-seeds / replaces the global generator
+    from ..rngseed import global_rng_rule
+    global_rng_rule(chk, repo, "C05-R1", ("cuqi/distribution/", "cuqi/implicitprior/", "cuqi/samples/", "cuqi/array/", "cuqi/geometry/", "cuqi/utilities/", "cuqi/density/"))
     _r2(chk, repo, samplers)
     _r3(chk, repo)
     _r4(chk, repo, dist)
